@@ -117,6 +117,19 @@ def srcloc(repo):
             for k in n.keywords:
                 if k.arg in ("is_synthetic", "is_disjoint_from_parent") and ast.unparse(k.value) != k.arg:
                     res.add(f"srcloc|kw|{k.arg}", f"from_str passes {ast.unparse(k.value)} as {k.arg}", PTYPES, n.lineno, "from_str")
+    # every text produced by __str__ carries the flag suffix: one return, and it interpolates the suffix variable
+    rets = [n for n in walk_no_nested_funcs(s.node) if isinstance(n, ast.Return)]
+    res.instances += 1
+    sufvar = None
+    for st in s.node.body:
+        if isinstance(st, ast.Assign) and isinstance(st.value, ast.Constant) and st.value.value == "" and isinstance(st.targets[0], ast.Name):
+            sufvar = st.targets[0].id
+    for r_ in rets:
+        names = {x.id for x in ast.walk(r_) if isinstance(x, ast.Name)}
+        if sufvar is None or sufvar not in names:
+            res.add("srcloc|str-without-flags", f"__str__ returns `{ast.unparse(r_.value)[:60]}` without the flag suffix: for those locations "
+                    "(e.g. the coordinate-less, synthetic 0:0-0:0*) the flags are not written, so the re-read IR differs from the one "
+                    "that was written", PTYPES, r_.lineno, "__str__")
     # every location built by from_str carries every flag it parsed
     flags = [f for f, _, _, _ in stripped if f]
     for n in walk_no_nested_funcs(p.node):
@@ -434,6 +447,99 @@ class VerifControl(Message):
 '''
     r2 = Repo(repo.root, overlay={"compiler/util/ir_data.py": new})
     return any("Decimal" in f.construct for f in serialtypes(r2).findings)
+
+
+def serialfilter(repo):
+    """R-SERIALFILTER (C18/C17): what the serialiser leaves out must be exactly what the deserialiser restores by
+    default: unset fields (None) and empty lists.  Every predicate handed to `_fields_and_values` in ir_data_utils.py is
+    evaluated (a small interpreter over `is`/`is not`/`==`/`not`/`and`/`or`/isinstance/len) on the sample values None,
+    [], [0], False, True, 0, 1, "", "x": it must keep every value that is not None and -- where it filters lists at
+    all -- drop only empty lists.  Dropping `False`, `0` or `""` loses a *set* field: `BooleanType.value = False` of an
+    expression proven false no longer reaches a back end that runs in a second process."""
+    res = RuleResult("R-SERIALFILTER")
+    rel = "compiler/util/ir_data_utils.py"
+    m = repo.mod(rel)
+    samples = [None, [], [0], False, True, 0, 1, "", "x"]
+
+    class Unsupported(Exception):
+        pass
+
+    def ev(e, var, v):
+        if isinstance(e, ast.Name):
+            if e.id == var:
+                return v
+            if e.id == "list":
+                return list
+            raise Unsupported(e.id)
+        if isinstance(e, ast.Constant):
+            return e.value
+        if isinstance(e, ast.UnaryOp) and isinstance(e.op, ast.Not):
+            return not ev(e.operand, var, v)
+        if isinstance(e, ast.BoolOp):
+            r = None
+            for x in e.values:
+                r = ev(x, var, v)
+                if isinstance(e.op, ast.And) and not r:
+                    return r
+                if isinstance(e.op, ast.Or) and r:
+                    return r
+            return r
+        if isinstance(e, ast.Compare) and len(e.ops) == 1:
+            a, b = ev(e.left, var, v), ev(e.comparators[0], var, v)
+            op = e.ops[0]
+            if isinstance(op, ast.Is):
+                return a is b
+            if isinstance(op, ast.IsNot):
+                return a is not b
+            if isinstance(op, ast.Eq):
+                return a == b
+            if isinstance(op, ast.NotEq):
+                return a != b
+            if isinstance(op, ast.Gt):
+                return a > b
+            raise Unsupported(type(op).__name__)
+        if isinstance(e, ast.Call) and isinstance(e.func, ast.Name) and e.func.id == "isinstance" and len(e.args) == 2:
+            return isinstance(ev(e.args[0], var, v), ev(e.args[1], var, v))
+        if isinstance(e, ast.Call) and isinstance(e.func, ast.Name) and e.func.id == "len" and len(e.args) == 1:
+            return len(ev(e.args[0], var, v))
+        if isinstance(e, ast.Call) and isinstance(e.func, ast.Name) and e.func.id == "bool" and len(e.args) == 1:
+            return bool(ev(e.args[0], var, v))
+        raise Unsupported(ast.unparse(e)[:40])
+
+    for n in ast.walk(m.tree):
+        if not (isinstance(n, ast.Call) and call_name(n) == "_fields_and_values"):
+            continue
+        lam = next((a for a in list(n.args[1:]) + [k.value for k in n.keywords] if isinstance(a, ast.Lambda)), None)
+        if lam is None:
+            continue
+        res.instances += 1
+        var = lam.args.args[0].arg
+        f = m.enclosing_func(n)
+        try:
+            kept = [bool(ev(lam.body, var, v)) for v in samples]
+        except Unsupported as u:
+            raise AnalysisError(f"{rel}:{n.lineno}: serialiser filter uses an unsupported construct: {u}")
+        except TypeError as u:
+            raise AnalysisError(f"{rel}:{n.lineno}: serialiser filter cannot be evaluated on the samples: {u}")
+        for v, k in zip(samples, kept):
+            must_keep = v is not None and v != []
+            if must_keep and not k:
+                res.add(f"{rel}|{f.qualname if f else ''}|drops|{v!r}", f"the serialiser filter `{ast.unparse(lam)[:90]}` drops the set value {v!r}: "
+                        "the deserialiser cannot tell it from an unset field, so the re-read IR differs (a constant-false "
+                        "`BooleanType.value`, a zero integer, an empty string) and a back end run in a second process renders other code "
+                        "than the one-process compiler", rel, n.lineno, f.qualname if f else "")
+                break
+            if v is None and k:
+                res.add(f"{rel}|{f.qualname if f else ''}|keeps-none", f"the serialiser filter `{ast.unparse(lam)[:90]}` keeps None", rel, n.lineno,
+                        f.qualname if f else "")
+                break
+        else:
+            if len(res.samples) < 3:
+                res.samples.append(f"{rel}:{n.lineno}: `{ast.unparse(lam)[:70]}` keeps every set value")
+    if res.instances < 2:
+        raise AnalysisError(f"{rel}: {res.instances} filters handed to _fields_and_values found (expected the serialiser's and fields_and_values')")
+    res.analysed = [rel]
+    return res
 
 
 def enumconv(repo):
